@@ -87,11 +87,19 @@ mod params_builder {
 		/// Insert a named value (key, value) pair into the builder.
 		/// The _name_ and _value_ are delimited by the `:` token.
 		pub(crate) fn insert_named<P: Serialize>(&mut self, name: &str, value: P) -> Result<(), serde_json::Error> {
+			let prev_len = self.bytes.len();
 			self.maybe_initialize();
 
-			serde_json::to_writer(&mut self.bytes, name)?;
+			if let Err(e) = serde_json::to_writer(&mut self.bytes, name) {
+				// Don't leave a partially serialized entry behind.
+				self.bytes.truncate(prev_len);
+				return Err(e);
+			}
 			self.bytes.push(b':');
-			serde_json::to_writer(&mut self.bytes, &value)?;
+			if let Err(e) = serde_json::to_writer(&mut self.bytes, &value) {
+				self.bytes.truncate(prev_len);
+				return Err(e);
+			}
 			self.bytes.push(b',');
 
 			Ok(())
@@ -99,9 +107,14 @@ mod params_builder {
 
 		/// Insert a plain value into the builder.
 		pub(crate) fn insert<P: Serialize>(&mut self, value: P) -> Result<(), serde_json::Error> {
+			let prev_len = self.bytes.len();
 			self.maybe_initialize();
 
-			serde_json::to_writer(&mut self.bytes, &value)?;
+			if let Err(e) = serde_json::to_writer(&mut self.bytes, &value) {
+				// Don't leave a partially serialized value behind.
+				self.bytes.truncate(prev_len);
+				return Err(e);
+			}
 			self.bytes.push(b',');
 
 			Ok(())
